@@ -59,11 +59,23 @@ def attribute_annotations(
         origin=cls,
         arguments=[],  # ignore self arguments here, State will have them resolved at this stage
     )
-    localns: dict[str, Any] = {cls.__name__: cls}
     recursion_guard: dict[Any, AttributeAnnotation] = {cls: self_annotation}
     attributes: dict[str, AttributeAnnotation] = {}
 
-    for key, annotation in get_type_hints(cls, localns=localns).items():
+    # each class refers by its name to itself, not to its subclass of the same name - annotations
+    # have to be resolved within the class defining them (most base first, same as get_type_hints)
+    annotations: dict[str, tuple[Any, dict[str, Any]]] = {}
+    for base in reversed(cls.__mro__):
+        defined: dict[str, Any] | None = base.__dict__.get("__annotations__")
+        if not defined:
+            continue
+
+        localns: dict[str, Any] = {base.__name__: base}
+        hints: dict[str, Any] = get_type_hints(base, localns=localns)
+        for key in defined:
+            annotations[key] = (hints[key], localns)
+
+    for key, (annotation, localns) in annotations.items():
         # do not include ClassVars, private or dunder items
         if ((get_origin(annotation) or annotation) is ClassVar) or key.startswith("_"):
             continue
